@@ -1,4 +1,7 @@
 use melverif::Params;
+
+#[global_allocator]
+static GLOBAL: melverif::alloc::Counting = melverif::alloc::Counting;
 use std::io::Write;
 
 fn arg(args: &[String], name: &str) -> Option<String> {
